@@ -43,6 +43,7 @@ def run(ctx):
     for o in objs:
         for sdf in (True, False):
             scen.append({"sc": len(scen), "kind": "sdf", "v": o, "sdf": sdf})
+        scen.append({"sc": len(scen), "kind": "sdf", "v": o, "sdf": True, "sdfLong": True})
     for (w, h, a, vc) in [(-1, -1, -1, -1), (1280, 720, 10, 7), (0, 0, 0, 0), (720, -1, 10, -1), (-1, 1280, -1, 12)]:
         scen.append({"sc": len(scen), "kind": "meta", "W": w, "H": h, "A": a, "Vc": vc})
     sp, tp = ctx.path("scen.ndjson"), ctx.path("trace.ndjson")
